@@ -185,19 +185,30 @@ func classify(m *t1model.Font, F1, F2 *type1.Font, format type1.FileFormat, stag
 				only = false
 			}
 		}
-		if only && len(F1.Encoding) == 256 {
-			subset := true
-			widened := false
+		if only && len(F1.Encoding) == 256 && F2 != nil && len(F2.Encoding) == 256 {
+			// F1's encoding is StandardEncoding restricted to a subset of the
+			// font's standard-named glyphs, and F2's is exactly
+			// StandardEncoding restricted to all of them
+			subset, widened, predicted := true, false, true
 			for i, n := range F1.Encoding {
 				std := t1model.StandardEncoding[i]
+				_, has := F1.Glyphs[std]
+				has = has && std != ""
 				if n != ".notdef" && n != std {
 					subset = false
 				}
-				if _, has := F1.Glyphs[std]; has && std != "" && n == ".notdef" {
+				if has && n == ".notdef" {
 					widened = true
 				}
+				want := ".notdef"
+				if has {
+					want = std
+				}
+				if F2.Encoding[i] != want {
+					predicted = false
+				}
 			}
-			if subset && widened {
+			if subset && widened && predicted {
 				return keyStdSubset
 			}
 		}
